@@ -1327,6 +1327,14 @@ func (c *Ctx) pkgoDispatch(si *siteInfo, rule string) {
 					}
 				}
 			}
+			// if fn.Type() == nil || sig.Recv() == nil { function }
+			if l.Kind == "or" && l.Pos {
+				for _, sl := range l.Subs {
+					if v := nilCheckedValue(sl); v != nil && sl.Pos && P.RootsAny(v, func(r ssa.Value) bool { return P.CallTo(r, "(*go/types.Signature).Recv") != nil }) {
+						recvNilOrCompound = true
+					}
+				}
+			}
 		}
 		want := map[string]string{"PKGO01": "TypeName", "PKGO02": "Func", "PKGO03": "Func"}[si.S.Code]
 		ok := (nodeKind == "SelectorExpr" || nodeKind == "Ident") && objKind == want
